@@ -2,7 +2,7 @@
     appendix B): a case is a flat list of naturals; the result is a list of
     lines of naturals. The parser is Gallina so that the extracted run and the
     in-Coq [vm_compute] run share it. *)
-From MB Require Import Model.Framework.
+From MB Require Import Model.Framework Model.Validate.
 Open Scope N_scope.
 
 Definition parser (A : Type) := list N -> option (A * list N).
@@ -173,7 +173,19 @@ Definition run_fcase (fc : fcase) : list (list N) :=
   | o => [out_fail o]
   end.
 
-(** entry point: tag 1 = framework case *)
+(** validation case: fractions and one machine; the four columns are
+    Machine::validate, Framework::new (this machine, these fractions),
+    Machine::from_str (serialize m) and Machine::new *)
+Definition run_vcase (l : list N) : list (list N) :=
+  match (pf <~ pnum ;; bf <~ pnum ;; m <~ pmachine ;; pret (pf, bf, m)) l with
+  | Some ((pf, bf, m), []) =>
+      let v := validate_machine m in
+      let u := in_unit (f64_of_bits pf) && in_unit (f64_of_bits bf) in
+      [[N_of_bool v; N_of_bool (v && u); N_of_bool v; N_of_bool v]]
+  | _ => [[99]]
+  end.
+
+(** entry point: tag 1 = framework case, 2 = validation case *)
 Definition run_wire (l : list N) : list (list N) :=
   match l with
   | 1 :: rest =>
@@ -181,5 +193,6 @@ Definition run_wire (l : list N) : list (list N) :=
       | Some (fc, []) => run_fcase fc
       | _ => [[99]]    (* unparsable case *)
       end
+  | 2 :: rest => run_vcase rest
   | _ => [[98]]
   end.
